@@ -211,7 +211,7 @@ pub mod leveldb {
 
 // ---------------------------------------------------------------------------------------
 // fs: in-memory ghost files. `File` is identified by a small integer fd derived from the
-// first byte of the path (b'0' + fd) or constructed directly with File::ghost(fd).
+// LENGTH of the path (fs::path_for(fd)) or constructed directly with File::ghost(fd).
 //  * write(): the k-th call fails iff FAULT_AT.v[k], is short (1 byte) iff SHORT_AT.v[k]; both
 //    schedules are pre-drawn by the harness; accepted bytes are counted per fd and the first
 //    LOGCAP bytes are kept.
@@ -241,6 +241,7 @@ pub mod fs {
     pub static mut WRITE_CALLS: crate::verif_models::Tg<usize> = crate::verif_models::Tg { v: 0, tag: 0x5eedc0de0000000e };
     pub static mut ACCEPTED: crate::verif_models::Tg<[usize; NFILES]> = crate::verif_models::Tg { v: [0; NFILES], tag: 0x5eedc0de0000000f };
     pub static mut WLOG: crate::verif_models::Tg<[[u8; LOGCAP]; NFILES]> = crate::verif_models::Tg { v: [[0; LOGCAP]; NFILES], tag: 0x5eedc0de00000010 };
+    pub static mut LOG_NAMES: crate::verif_models::Tg<bool> = crate::verif_models::Tg { v: false, tag: 0x5eedc0de0000f003 };
     pub static mut LOG_CONTENT: crate::verif_models::Tg<bool> = crate::verif_models::Tg { v: false, tag: 0x5eedc0de0000f001 };
     pub static mut FLUSHES: crate::verif_models::Tg<[usize; NFILES]> = crate::verif_models::Tg { v: [0; NFILES], tag: 0x5eedc0de00000011 };
 
@@ -272,9 +273,12 @@ pub mod fs {
             unsafe { LIVE.v[fd] += 1; }
             File { fd, pos: 0 }
         }
+        /// The file id is the LENGTH of the path minus one ("x" = 0, "xx" = 1, ...): the length is a
+        /// scalar CBMC keeps concrete, whereas a byte read back from the heap string made the id -
+        /// and with it every later file operation - symbolic.
         fn fd_of<P: AsRef<Path>>(p: P) -> usize {
-            let b = p.as_ref().as_os_str().as_encoded_bytes();
-            if b.is_empty() { 0 } else { (b[b.len() - 1].wrapping_sub(b'0') as usize) % NFILES }
+            let n = p.as_ref().as_os_str().len();
+            if n == 0 { 0 } else { (n - 1) % NFILES }
         }
         pub fn open<P: AsRef<Path>>(p: P) -> io::Result<File> {
             let fd = Self::fd_of(p);
@@ -291,6 +295,13 @@ pub mod fs {
             unsafe { ACCEPTED.v[fd] = 0; LEN.v[fd] = 0; EXISTS.v[fd] = true; }
             Ok(File::ghost(fd))
         }
+    }
+    /// Path whose ghost file id is `fd` (see fd_of).
+    pub fn path_for(fd: usize) -> PathBuf {
+        let mut s = String::new();
+        let mut i = 0;
+        while i <= fd { s.push('x'); i += 1; }
+        PathBuf::from(s)
     }
     impl Drop for File {
         fn drop(&mut self) {
@@ -389,7 +400,7 @@ pub mod fs {
                 return Err(io::Error::from(io::ErrorKind::Other));
             }
             if RENAMES.v == 0 { SNAP_AT_FIRST_RENAME.v = ACCEPTED.v; }
-            if RENAMES.v < 4 {
+            if LOG_NAMES.v && RENAMES.v < 4 {
                 RENAME_TO_LEN.v[RENAMES.v] = copy_name(to.as_ref(), &mut RENAME_TO.v[RENAMES.v]);
                 RENAME_FROM_LEN.v[RENAMES.v] = copy_name(from.as_ref(), &mut RENAME_FROM.v[RENAMES.v]);
             }
@@ -718,8 +729,8 @@ pub mod hooks {
     pub static mut RB_OFFSET: crate::verif_models::Tg<[u64; 8]> = crate::verif_models::Tg { v: [0; 8], tag: 0x5eedc0de00000035 };
 
     pub fn file_id(p: &Path) -> u64 {
-        let b = p.as_os_str().as_encoded_bytes();
-        if b.is_empty() { 0 } else { b[b.len() - 1].wrapping_sub(b'0') as u64 }
+        let n = p.as_os_str().len();
+        if n == 0 { 0 } else { (n - 1) as u64 }
     }
     pub fn marker_block(file: u64, offset: u64) -> Block {
         unsafe {
